@@ -1,7 +1,7 @@
 """C02 — superposition: A(ax+by) = aA(x)+bA(y), A(0)=0, and action on any input = matrix action."""
 import random
 
-from harness.core import zoo
+from harness.core import zoo, zoo_kernels
 from harness.core.runner import Outcome
 from harness.props import _ops
 
@@ -13,10 +13,51 @@ ASSUMPTIONS = ['linearity of the model is a theorem; the real code is tied to it
 
 def generate(rng: random.Random, tier: str):
     n = 30 if tier == 'thorough' else 6
-    return [zoo.gen_config(kind, rng) for kind in zoo.EXACT_KINDS for _ in range(n * (2 if kind in ('cartsamp',) else 1))]
+    cases = [zoo.gen_config(kind, rng) for kind in zoo.EXACT_KINDS for _ in range(n * (2 if kind in ('cartsamp',) else 1))]
+    for kind in zoo_kernels.KERNEL_KINDS:
+        cases += [zoo_kernels.gen_config(kind, rng) for _ in range(max(2, n // 2))]
+    return cases
+
+
+def run_kernel(cfg) -> Outcome:
+    """superposition on the real operator incl. complex scalars on operators that treat real and imaginary parts separately;
+    action on a generic input = action of the operator's matrix (from basis vectors)"""
+    import math
+
+    import torch
+
+    rng = random.Random(cfg['seed'] + 1)
+    op, dom, rng_shape, tol = zoo_kernels.build(cfg)
+    single = cfg['kind'] == 'sliceproj'
+    dt = torch.complex64 if single else torch.complex128
+    tol = max(tol, 1e-4 if single else 1e-9)
+    viol = None
+    for which, fn, shape in (('forward', op.forward, dom), ('adjoint', op.adjoint, rng_shape)):
+        n = math.prod(shape)
+
+        def rnd():
+            return torch.tensor([complex(rng.gauss(0, 1), rng.gauss(0, 1)) * 10 ** rng.randint(-3, 3) for _ in range(n)], dtype=dt).reshape(shape)
+
+        x, y = rnd(), rnd()
+        a, b = complex(rng.gauss(0, 1), rng.gauss(0, 1)), complex(rng.gauss(0, 1), rng.gauss(0, 1))
+        lhs = fn(a * x + b * y)[0]
+        rhs = a * fn(x)[0] + b * fn(y)[0]
+        scale = max(1e-30, float(rhs.abs().max()))
+        if float((lhs - rhs).abs().max()) > 100 * tol * scale:
+            viol = viol or {'signature': f'linearity:{cfg["kind"]}:{which}', 'what': f'{cfg} {which}: A(ax+by) != aA(x)+bA(y) (rel dev {float((lhs - rhs).abs().max()) / scale:.2e})'}
+        if bool((fn(torch.zeros(shape, dtype=dt))[0] != 0).any()):
+            viol = viol or {'signature': f'linearity:{cfg["kind"]}:{which}:zero', 'what': f'{cfg} {which}: A(0) != 0'}
+        M = zoo_kernels.dense(fn, shape, single=single)
+        got = fn(x)[0].reshape(-1).to(M.dtype)
+        want = M @ x.reshape(-1).to(M.dtype)
+        if float((got - want).abs().max()) > 100 * tol * max(1e-30, float(want.abs().max())):
+            viol = viol or {'signature': f'matrix-action:{cfg["kind"]}:{which}', 'what': f'{cfg} {which}: A(x) differs from the matrix of A (from basis vectors) applied to x'}
+    return Outcome(key={k: v for k, v in cfg.items() if k != 'seed'}, viol=viol, branches=[f'kernel:{cfg["kind"]}'], sample=cfg)
 
 
 def run(cfg, drv) -> Outcome:
+    if cfg['kind'] in zoo_kernels.KERNEL_KINDS:
+        return run_kernel(cfg)
     rng = random.Random(cfg['seed'] + 1)
     built = zoo.build(cfg)
     corr = _ops.generic_apply_corr(cfg, built, rng, drv)
